@@ -1272,6 +1272,15 @@ func (r *runningStep) startStage(container deployer.Plugin) (bool, int64, error)
 		}
 	}
 
+	// The step may have been cancelled (stop_if) or closed before it picked up its input. Both the input
+	// and the cancellation can be pending at this point, so make sure a cancelled step is never started.
+	select {
+	case <-r.ctx.Done():
+		r.logger.Debugf("step closed before it was started")
+		return true, 0, nil
+	default:
+	}
+
 	inputSchema, err := r.atpClient.ReadSchema()
 	if err != nil {
 		return false, 0, err
